@@ -4,7 +4,9 @@ identity element handed to tbb::parallel_reduce.  Loop-free, full input domain =
 Binding (rule kinds 1 and 2 of DESIGN 2.1): cycle_t = std::tuple<std::set<Edge>,WeightType,bool>
 becomes a C struct whose first field is an opaque identity of the edge set (the operator never
 inspects the set); std::get<I>(c) -> field access; compare = std::less<WeightType> -> '<'."""
+import re
 from lib import xtract as X
+from lib.core import Undecided
 
 SITES = [
     ("sptrees_lookup", "include/parmcb/sptrees.hpp", (r"auto cycle_min = \[compare\]", 0, 1)),
@@ -75,7 +77,15 @@ void h_lemma(void) {
 
 def _lambda_fn(site, rel, anchor, W, log):
     text = X.src(rel)
+    # parameter names of the lambda are local to it: bind them to c1 / c2 (N2)
+    ms = list(re.finditer(anchor[0] + r"\s*\(const cycle_t &(\w+), const cycle_t &(\w+)\)", text))
+    if len(ms) != anchor[2]:
+        raise Undecided("extraction out of date: cycle_min lambda header at " + site)
+    p1, p2 = ms[anchor[1]].groups()
     body = X.body_after(text, anchor, "cycle_min lambda " + site)
+    if (p1, p2) != ("c1", "c2"):
+        body = X.canon("(const cycle_t &%s, const cycle_t &%s)" % (p1, p2) + body, [(r"^\(const cycle_t &(\w+), const cycle_t &(\w+)\)", ["c1", "c2"])], log)
+        body = body[body.index(")") + 1:]
     body = X.rewrite(body, [
         (r"std::get<2>\((c[12])\)", r"GET2(\1)", (1, 8), "overload-resolution", "tuple field 2 = exists"),
         (r"std::get<1>\((c[12])\)", r"GET1(\1)", (0, 8), "overload-resolution", "tuple field 1 = weight"),
@@ -122,9 +132,15 @@ def units(tier):
         fns = []
         for site, rel, anchor in SITES:
             log = []
-            fns.append((site, rel, _lambda_fn(site, rel, anchor, W, log), log))
+            try:
+                fns.append((site, rel, _lambda_fn(site, rel, anchor, W, log), log))
+            except Undecided as e:
+                res.append(dict(unit="K7_%s_%s_contract" % (site, wname), error=str(e)))
         log = []
-        fns.append(("mpi_MinOp", "include/parmcb/sptrees.hpp", _minop_fn(W, log), log))
+        try:
+            fns.append(("mpi_MinOp", "include/parmcb/sptrees.hpp", _minop_fn(W, log), log))
+        except Undecided as e:
+            res.append(dict(unit="K7_mpi_MinOp_%s_contract" % wname, error=str(e)))
         for site, rel, fn, log in fns:
             base = dict(lang="c", source=rel, rewrites=log,
                         dropped=["lambda capture list / template header / reference-ness of parameters"],
@@ -137,7 +153,11 @@ def units(tier):
                             entry="h_lemma", replace=["OP"], mode="proof", timeout=600))
         # identity elements
         log = []
-        ids = _identity_exprs(log)
+        try:
+            ids = _identity_exprs(log)
+        except Undecided as e:
+            res.append(dict(unit="K7_identity_%s" % wname, error=str(e)))
+            continue
         body = "".join('  { cycle_t id = %s; __CPROVER_assert(!id.exists, "identity.%s.%d: identity passed to parallel_reduce has exists=false"); }\n'
                        % (e, rel.split("/")[-1], i) for rel, i, e in ids)
         txt = pre + "void h_id(void) {\n" + body + '  __CPROVER_assert(0, "VP_REACH end");\n}\n'
